@@ -93,6 +93,29 @@ def handlePure : List String → Option String
     | .ignored => pure "ignored"
     | .decode t => pure s!"decode {t}"
   | ["wire.tohex", n] => do pure (toHex (← int? n))
+  | ["payloop", ch, h0, d2, k] => do
+    -- pay loop entered d2 blocks after the start, every attempt fails, k blocks arrive after each attempt:
+    -- the heights at which the payment call is made (the loop ends at the first height the guard rejects)
+    let c ← chain? ch
+    let h0 ← nat? h0
+    let k ← nat? k
+    let h2 := wrapU32 (h0 + (← nat? d2))
+    let guard : Nat → Bool ← match c with
+      | .btc => some (fun h => payIterationBtc Gen.bitcoinCsv h0 h)
+      | .lbtc => (Gen.timelockPolicy .lbtc Gen.protocolVersion).map fun p => (fun h => payIterationLbtc p true h0 h)
+      | .none => none
+    let rec go (fuel h : Nat) (acc : List Nat) : List Nat :=
+      match fuel with
+      | 0 => acc
+      | fuel + 1 => if guard h then go fuel (wrapU32 (h + k)) (h :: acc) else acc
+    -- the announcement is checked at the start height first (honest invoice)
+    let awaitOk : Bool ← match c with
+      | .btc => some (awaitTxConfBtc Gen.bitcoinCsv 503 1000000000 1000000 h0 h0 == .ok)
+      | .lbtc => (Gen.timelockPolicy .lbtc Gen.protocolVersion).map fun p =>
+          (awaitTxConfLbtc p 29 1000000000 1000000 true h0 h0 == .ok)
+      | .none => none
+    let hs := if awaitOk then (go 40 h2 []).reverse else []
+    pure (if hs.isEmpty then "none" else ",".intercalate (hs.map toString))
   | ["scid.cln", s] => do pure (hexStr (clnStyle (← unhexStr s)))
   | ["scid.lnd", s] => do pure (hexStr (lndStyle (← unhexStr s)))
   | ["premium.compute", amt, ppm] => do pure (toString (ppmCompute (← nat? amt) (← int? ppm)))
